@@ -499,7 +499,7 @@ Proof.
     destruct (addm_seqrecords asm' r3 Ka K3) as (prod & Ep & Pp & Kp & Ap).
     cbn [finish].
     destruct rest as [|t0 rest0]; cbn [bind app]; rewrite Ep; cbn [bind];
-      unfold bio_CircularRecord_of; rewrite Ap; cbn [bind outcome_of forget_used pr_seq];
+      rewrite CircularRecord_new_eq; unfold bio_CircularRecord_of; rewrite Ap; cbn [bind outcome_of forget_used pr_seq];
       rewrite Pp, Pa, P3; [reflexivity|].
     rewrite (dict_rel_ids d2 (t0 :: rest0) Hrel2). reflexivity.
   - destruct WL as (k & Ew & Hk). rewrite Ew. cbn [bind py_try finish outcome_of forget_used]. now rewrite Hk.
@@ -737,7 +737,7 @@ Proof.
   set (W := if dict_nonempty d2 then _ else _).
   assert (HW : exists ws, W = Ok ws) by (unfold W; destruct (dict_nonempty d2); eauto).
   destruct HW as [ws HW]. rewrite HW. cbn [bind]. rewrite E3. cbn [bind]. rewrite Ep. cbn [bind].
-  unfold bio_CircularRecord_of. rewrite Ap. cbn [bind].
+  rewrite CircularRecord_new_eq. unfold bio_CircularRecord_of. rewrite Ap. cbn [bind].
   eexists _, ws, uE. split; [reflexivity|]. split; [exact Hids_u|]. split; [exact HuE|].
   split; [reflexivity|]. exact Hprod.
 Qed.
